@@ -46,7 +46,7 @@ Proof.
   destruct (firstn1_map_rev_cases (strip (length pfx)) sel) as [[Er Ef]|([k v] & r & Er & Ef)]; rewrite Ef; unfold kv in *.
   - intros n v Hn Hi. destruct (N.lt_ge_cases h n) as [L|G]; auto. exfalso.
     assert (Hs' : In (pfx ++ u32be n, v) sel) by (apply Hin; auto).
-    apply in_rev in Hs'. rewrite Er in Hs'. contradiction.
+    apply in_rev in Hs'. assert (Hr : In (pfx ++ u32be n, v) (@nil (key * val))) by (rewrite <- Er; exact Hs'). destruct Hr.
   - unfold strip. simpl fst. simpl snd.
     destruct (rev_head_max sel (k, v) r Hsel Er) as [Hx Hmax].
     assert (Hxm : In (k, v) m /\ is_prefix pfx k = true).
